@@ -62,7 +62,7 @@ def one_trace(rng, tid, prop):
         if c < 0.35:
             # construct from data of dtype d1, optionally requesting dtype d2
             d2 = rng.choice(DTYPES + [""] * 6)
-            how = rng.choice(["polynomial", "aspolynomial", "astype", "from_attributes"])
+            how = rng.choice(["polynomial", "aspolynomial", "astype", "from_attributes", "aspolynomial_names", "polynomial_names"])
             if how == "astype" and not d2:
                 d2 = rng.choice(DTYPES)
             if d2 and (kind_of(d1) in "fc" and kind_of(d2) == "u"):
@@ -75,7 +75,7 @@ def one_trace(rng, tid, prop):
                 shape = rng.choice([(), (2,), (2, 2)])
                 size = int(numpy.prod(shape, dtype=int))
                 x = rec.new(numpy.array([rng.choice(VALUES[kind_of(d1)]) for _ in range(size)], dtype=d1).reshape(shape))
-            rec.do("dtype", [x], keep=False, fn="construct", how=how, dtype=d2)
+            rec.do("dtype", [x], keep=False, fn="construct", how=how, dtype=d2, names_form=rng.randrange(3))
         elif c < 0.45:
             n = rng.randint(1, 3)
             rec.do("dtype", [], keep=False, fn="variable", how=rng.choice(["variable", "symbols"]), n=n,
